@@ -1,7 +1,7 @@
 SPECIFICATION Spec
-CONSTANTS MaxN = 3
-Coords <- C3
-CtrlCoords <- C2
+CONSTANTS MaxN = 2
+Coords <- C4
+CtrlCoords <- C3
 Radii <- R2
 Rots <- C2
 INVARIANTS Laws InRange
